@@ -48,6 +48,10 @@ pub mod syntax;
 mod unit;
 mod unit_parser;
 pub mod units;
+#[cfg(feature = "verif")]
+#[doc(hidden)]
+#[allow(missing_docs)]
+pub mod verif;
 
 pub use self::compound::Compound;
 pub use self::db::{Constant, Db, Source};
